@@ -391,6 +391,12 @@ def downsCase (args : List String) (impl : String) : Verdict :=
     | none => bad "downs-n"
   | _ => bad "downs-arity"
 
+/-- a server without Handler / SecretSource refuses Serve and ListenAndServe at once; Shutdown then returns nil -/
+def nilCfgCase (impl : String) : Verdict :=
+  let model := " ".intercalate ((List.range 3).flatMap fun k => [s!"cfg{k}=refused", s!"cfg{k}=refused", s!"shutdown{k}=nil"])
+  mk impl model [("no_panic", !((impl.splitOn "PANIC").length > 1 || (impl.splitOn "HANG").length > 1)),
+                 ("misconfigured_server_refuses_and_shuts_down", impl == model)]
+
 /-- `finishes n`: n DIFFERENT requests in flight on one Serve call, their handlers return at the same instant
     (forty rounds): each is served exactly once, nothing crashes (the table of requests in flight is written by n
     goroutines at once), Shutdown returns nil -/
@@ -409,6 +415,7 @@ def finishesCase (args : List String) (impl : String) : Verdict :=
 def c07 (op : String) (args : List String) (impl : String) : Verdict :=
   match op with
   | "downs" => downsCase args impl
+  | "nilcfg" => nilCfgCase impl
   | "finishes" => finishesCase args impl
   | "scenario" => scenarioCase args impl
   | _ => bad s!"op:{op}"
@@ -426,12 +433,6 @@ def dupsCase (args : List String) (impl : String) : Verdict :=
                      ("shutdown_returns_nil_after_release", impl.endsWith "shutdown=nil")]
     | none => bad "dups-n"
   | _ => bad "dups-arity"
-
-/-- a server without Handler / SecretSource refuses Serve and ListenAndServe at once; Shutdown then returns nil -/
-def nilCfgCase (impl : String) : Verdict :=
-  let model := " ".intercalate ((List.range 3).flatMap fun k => [s!"cfg{k}=refused", s!"cfg{k}=refused", s!"shutdown{k}=nil"])
-  mk impl model [("no_panic", !((impl.splitOn "PANIC").length > 1 || (impl.splitOn "HANG").length > 1)),
-                 ("misconfigured_server_refuses_and_shuts_down", impl == model)]
 
 def c06 (op : String) (args : List String) (impl : String) : Verdict :=
   match op with
